@@ -41,7 +41,16 @@ def _nest(k):
     return ''.join('def n%d {\n%s\n}\n' % (i, ('n%d' % (i + 1)) if i + 1 < k else ';') for i in range(k)) + 'n0\nl: ;l\n'
 
 
+def _deep_frames(k, terms):
+    # legal macro depth k (< 900) whose innermost op holds a long left-nested expression over a parameter: the assembly needs
+    # more python frames than the interpreter's limit allows in a fresh process (limit = max_recursion_depth + gap), so the
+    # outcome flips if an earlier call left another recursion limit behind
+    body = ''.join('def d%d x {\n%s\n}\n' % (i, ('d%d x' % (i + 1)) if i + 1 < k else (';x' + ' + 0' * terms)) for i in range(k))
+    return body + 'd0 1\nl: ;l\n'
+
+
 NOSTL_PROGRAMS = {
+    'frames-near-python-limit': _deep_frames(850, 300),
     'nest11': _nest(11),
     'nest12': _nest(12),
     'nest13': _nest(13),
@@ -98,7 +107,7 @@ def histories(draw):
                               version=d.int(0, 3), w=prev['w'] if d.pct() < 70 or not prev['use_stl'] else d.choice([32, 64])))
             continue
         steps.append({'name': name, 'texts': texts, 'w': w, 'werror': d.pct() < 35, 'version': d.int(0, 3),
-                      'depth': d.choice([None, None, 900, 50, 12]), 'use_stl': use_stl,
+                      'depth': d.choice([None, None, 900, 50, 12, 3000]), 'use_stl': use_stl,
                       'dir_tag': d.choice(['x', 'y', 'deep/er/dir', 'a b', 'x']), 'debug': True})
     return {'steps': steps}
 
@@ -155,6 +164,27 @@ def run_case(case):
         shutil.rmtree(hist_base, ignore_errors=True)
 
 
+def _in_fresh_thread(fn, *a, **k):
+    """the library sets an ABSOLUTE python recursion limit (max_recursion_depth + gap), so what a deep macro nest does
+    depends on how deep the caller's own stack is.  The fresh-process oracle calls assemble from a nearly empty stack;
+    the in-process history does the same by running every step on a new thread (frame depth is counted per thread)
+    instead of below Hypothesis' and the runner's ~80 frames."""
+    import threading
+    box = {}
+
+    def run():
+        try:
+            box['r'] = fn(*a, **k)
+        except BaseException as e:  # noqa
+            box['e'] = e
+    t = threading.Thread(target=run)
+    t.start()
+    t.join()
+    if 'e' in box:
+        raise box['e']
+    return box['r']
+
+
 def _run_history(case, hist_base):
     cl = []
     failed_before = 0
@@ -162,7 +192,7 @@ def _run_history(case, hist_base):
     nontrivial = False
     for i, step in enumerate(case['steps']):
         # all steps of a history that name the same dir_tag assemble the SAME paths (sources rewritten in place)
-        got = asm_worker.do_request(step, fixed_base=hist_base)
+        got = _in_fresh_thread(asm_worker.do_request, step, fixed_base=hist_base)
         want = fresh(step)
         cl.append('step:' + step['name'])
         key = (step['w'], step['werror']) if step['use_stl'] else None
